@@ -29,12 +29,18 @@ Proof. reflexivity. Qed.
 
 Definition int64_range (n : Z) : Prop := - 9223372036854775808 <= n <= 9223372036854775807.
 
-Lemma wrap64_id n : n <= 9223372036854775807 -> wrap64 n = n.
-Proof. intros H. unfold wrap64. destruct (n <=? 9223372036854775807) eqn:E; lia. Qed.
+Lemma wrap64_id n : int64_range n -> wrap64 n = n.
+Proof. unfold int64_range, wrap64. intros H. rewrite Z.mod_small; lia. Qed.
+
+Lemma wrap64_idem n : wrap64 (wrap64 n) = wrap64 n.
+Proof.
+  apply wrap64_id. unfold int64_range, wrap64.
+  pose proof (Z.mod_pos_bound (n + 9223372036854775808) 18446744073709551616 ltac:(lia)). lia.
+Qed.
 
 Lemma nlookup_set_alg p a : nlookup (lbl c_HeaderLabelAlgorithm) (set_alg p a) = Some (GInt KAlg a).
 Proof.
-  unfold nlookup, set_alg. rewrite normalize_lbl. rewrite wrap64_id by (cbv; discriminate).
+  unfold nlookup, set_alg. rewrite normalize_lbl. rewrite wrap64_id by (unfold int64_range, c_HeaderLabelAlgorithm; lia).
   fold (lbl c_HeaderLabelAlgorithm). rewrite glookup_gset_lbl. reflexivity.
 Qed.
 
@@ -506,4 +512,11 @@ Proof.
   destruct (countersign_tbs true target abbrev_sign_protected_Countersign0 ext) as [t|e| |]; cbn [fst]; try discriminate.
   destruct (sg_run sg t) as [s'| |s'] eqn:R; cbn [fst]; try discriminate.
   intros H; inversion H; subst. apply Hv. exact R.
+Qed.
+
+(* the cast of the decoded alg value to type Algorithm does not change which algorithm is consulted *)
+Lemma alg_of_cast_alg m : alg_of (Some (Dec.cast_alg m)) = alg_of (Some m).
+Proof.
+  unfold Dec.cast_alg. destruct (alg_of (Some m)) as [a| | |] eqn:E; auto.
+  rewrite alg_of_set_alg. reflexivity.
 Qed.
